@@ -449,11 +449,12 @@ def ob_mu(domain):
     return verify(body, check_side=False, timeout_ms=120000)
 
 
-@obligation("mu/switched_direction_non_square", params=[{"switched": sw} for sw in (False, True)], timeout=300,
+@obligation("mu/switched_direction_non_square", params=[{"switched": sw} for sw in (False, True)] + [{"switched": sw, "domain": "freq"} for sw in (False, True)],
+            timeout=300,
             desc="MuChannel with 2 receivers and 1 transmitter (a NON-square link matrix, symbolic path losses) in both link directions: "
                  "original direction - receiver rx gets link_{rx,0}(x_0); switched direction (set through the MuChannel property, which has to "
                  "reach every link) - the single receiver gets link_{0,0}(x_0) + link_{1,0}(x_1); each with the response reported for that link")
-def ob_mu_switched(switched):
+def ob_mu_switched(switched, domain="time"):
     def body(c, it):
         from pyphysim.channels import multiuser
         delays = [0, 1]
@@ -468,15 +469,27 @@ def ob_mu_switched(switched):
         if switched:
             it.setattr(mu, "switched_direction", True)
         goals = [Goal("the direction is reported", bool(it.getattr(mu, "switched_direction")) == switched)]
-        N = 3
+        N = 3 if domain == "time" else 4
         nin = 2 if switched else 1
         x = _sig(c, "x", nin, N)
-        out = it.call(it.getattr(mu, "corrupt_data"), [x])
+        if domain == "time":
+            out = it.call(it.getattr(mu, "corrupt_data"), [x])
+        else:
+            out = it.call(it.getattr(mu, "corrupt_data_in_freq_domain"), [x, 4])
         nout = 1 if switched else 2
         goals.append(Goal("one output per receiving end", np.shape(out) == (nout,)))
         if np.shape(out) != (nout,):
             return goals
         irs = [it.getattr(it.call(it.getattr(mu, "get_last_impulse_response"), [rx, 0]), "tap_values_sparse") for rx in range(2)]
+        if domain == "freq":
+            Fm = _dft_matrix(4, False)
+
+            def _conv_spec(sig, taps, dl, n_):          # frequency domain: per-carrier product with the DFT of the (dense) taps
+                dense = np.zeros(4, dtype=object)
+                dense[0], dense[1] = taps[0, 0], taps[1, 0]
+                return np.dot(Fm, dense) * sig
+        else:
+            from contracts.C03 import _conv_spec
         if switched:
             spec = _conv_spec(x[0], irs[0], delays, N) + _conv_spec(x[1], irs[1], delays, N)
             goals.append(Goal("switched: the single receiver gets the superposition of both links", _meq(out[0], spec)))
@@ -518,7 +531,7 @@ def ob_mu_switched(switched):
             return {"confirmed": False, "note": "real MuChannel agrees in this direction"}
         except Exception as e:
             return {"confirmed": False, "error": "replay crashed: %r" % (e,)}
-    return verify(body, check_side=False, timeout_ms=120000, replay=rp)
+    return verify(body, check_side=False, timeout_ms=120000, replay=rp if domain == "time" else None)
 
 
 @obligation("su_mimo/pathloss_and_antennas", params=[{"switched": sw} for sw in (False, True)], timeout=300,
